@@ -124,4 +124,4 @@ theorem sync_crash_atomic
     exact phaseC post (List.prefix_refl _) img himg
 
 end NomtDisk
-#print axioms NomtDisk.sync_crash_atomic
+
